@@ -30,7 +30,7 @@ MODELLED = {
     "cfuns.c:can_slot_be_imm": {"0cd9094c93c1"},
     "cfuns.c:janetc_funopt": {"6b3b565ea172"},
     "cfuns.c:do_debug": {"1ab94982b1fe"},
-    "cfuns.c:do_error": {"33eb438a7e28"},
+    "cfuns.c:do_error": {"33eb438a7e28", "3467986d6084"},        # second: 0a37cea (argument forced into a near register; not modelled beyond the table row)
     "cfuns.c:do_apply": {"03eddf3c9893"},
     "cfuns.c:do_yield": {"dabb5bd41c25"},
     "cfuns.c:do_put": {"81ff4d5b9a75", "ac7e7915cb4d"},          # second: with patches/fix-C15-target-alias.diff
